@@ -58,23 +58,27 @@ func overrideValue(r *zv.Rng, oid []int) []byte {
 	return nil
 }
 
+func addOverrides(r *zv.Rng, t *x509.Certificate) {
+	for i := 1 + r.Intn(2); i > 0; i-- {
+		oid := overridable[r.Intn(len(overridable))]
+		dup := false
+		for _, e := range t.ExtraExtensions {
+			if e.Id.Equal(oid) {
+				dup = true
+			}
+		}
+		if !dup {
+			t.ExtraExtensions = append(t.ExtraExtensions, pkix.Extension{Id: oid, Critical: r.Bool(), Value: overrideValue(r, oid)})
+		}
+	}
+}
+
 func build(seed uint64, keyName, signerName string, alg int) *tcase {
 	r := zv.NewRng(seed)
 	tc := &tcase{key: x509rig.KeyByName(keyName)}
 	tc.t = x509rig.RandTemplate(r, r.Chance(60))
 	if r.Chance(20) { // ExtraExtensions overriding generated ones
-		for i := 1 + r.Intn(2); i > 0; i-- {
-			oid := overridable[r.Intn(len(overridable))]
-			dup := false
-			for _, e := range tc.t.ExtraExtensions {
-				if e.Id.Equal(oid) {
-					dup = true
-				}
-			}
-			if !dup {
-				tc.t.ExtraExtensions = append(tc.t.ExtraExtensions, pkix.Extension{Id: oid, Critical: r.Bool(), Value: overrideValue(r, oid)})
-			}
-		}
+		addOverrides(r, tc.t)
 	}
 	tc.t.SignatureAlgorithm = x509.SignatureAlgorithm(alg)
 	if signerName != "self" {
@@ -171,21 +175,36 @@ func modelFields(t *x509.Certificate, nc string) string {
 		hexList(strs(t.CRLDistributionPoints)), extraS}, " ")
 }
 
-func create(tc *tcase) (der []byte, parent *x509.Certificate, parentDER []byte, err error) {
+// create runs the real code. Every argument of every CreateCertificate call is fingerprinted (x509rig.Fingerprint: all
+// fields, lengths, capacities, spare capacity) before and after the call; mut lists the arguments that were written to.
+func create(tc *tcase) (der []byte, parent *x509.Certificate, parentDER []byte, mut []string, err error) {
 	rnd := zv.NewRng(0x5151)
+	call := func(what string, template, par *x509.Certificate, key, signer *x509rig.Key) ([]byte, error) {
+		fr := []frozen{freeze("template", template), freeze("public key", key.Pub), freeze("private key", signer.Priv)}
+		if par != template {
+			fr = append(fr, freeze("parent", par))
+		}
+		d, e := x509.CreateCertificate(rnd, template, par, key.Pub, signer.Priv)
+		for _, z := range fr {
+			if m := z.check("CreateCertificate (" + what + ")"); m != "" {
+				mut = append(mut, m)
+			}
+		}
+		return d, e
+	}
 	if tc.signer == nil {
-		der, err = x509.CreateCertificate(rnd, tc.t, tc.t, tc.key.Pub, tc.key.Priv)
+		der, err = call("self-signed", tc.t, tc.t, tc.key, tc.key)
 		return
 	}
-	parentDER, err = x509.CreateCertificate(rnd, tc.parentT, tc.parentT, tc.signer.Pub, tc.signer.Priv)
+	parentDER, err = call("parent", tc.parentT, tc.parentT, tc.signer, tc.signer)
 	if err != nil {
-		return nil, nil, nil, fmt.Errorf("parent: %w", err)
+		return nil, nil, nil, mut, fmt.Errorf("parent: %w", err)
 	}
 	parent, err = x509.ParseCertificate(parentDER)
 	if err != nil {
-		return nil, nil, nil, fmt.Errorf("parent parse: %w", err)
+		return nil, nil, nil, mut, fmt.Errorf("parent parse: %w", err)
 	}
-	der, err = x509.CreateCertificate(rnd, tc.t, parent, tc.key.Pub, tc.signer.Priv)
+	der, err = call("issued", tc.t, parent, tc.key, tc.signer)
 	return
 }
 
@@ -271,6 +290,9 @@ func overridden(t *x509.Certificate, oid []int) bool {
 
 func exec(line string) zv.Out {
 	f := strings.Fields(line)
+	if len(f) > 1 && f[1] != "t" {
+		return execReuse(f)
+	}
 	if len(f) != 21 || f[1] != "t" {
 		return zv.Out{Viol: "bad line"}
 	}
@@ -285,7 +307,10 @@ func exec(line string) zv.Out {
 		tags = append(tags, "issued-by="+f[4])
 	}
 	tags = append(tags, x509rig.NameClasses(t.Subject)...)
-	der, parent, _, err := create(tc)
+	// sh: the same case built a second time from the seed — the library never sees it; the certificate is compared with
+	// sh.t, not with the value that went through CreateCertificate (a write-back into the template would hide itself)
+	sh := build(seed, f[3], f[4], alg)
+	der, parent, _, mutated, err := create(tc)
 	if err != nil {
 		return zv.Out{Go: "err", Viol: "CreateCertificate failed on a template inside the documented domain: " + err.Error(), Tags: tags}
 	}
@@ -293,7 +318,7 @@ func exec(line string) zv.Out {
 	if err != nil {
 		return zv.Out{Go: "err", Viol: "ParseCertificate rejects the created certificate: " + err.Error(), Tags: tags}
 	}
-	if got := modelFields(t, ncOf(der)); got != strings.Join(f[6:], " ") {
+	if got := modelFields(sh.t, ncOf(der)); got != strings.Join(f[6:], " ") {
 		return zv.Out{Viol: "harness: template regenerated from the seed differs from the fields on the line", Tags: tags}
 	}
 
@@ -324,6 +349,30 @@ func exec(line string) zv.Out {
 		hexList(strs(c.OCSPServer)), hexList(strs(c.IssuingCertificateURL)), hexList(strs(c.CRLDistributionPoints)), oidList(c.PolicyIdentifiers))
 
 	// ---- T3: field-by-field round trip ----
+	e := &expect{t: sh.t, subject: sh.t.Subject, issuer: sh.t.Subject, key: tc.key, alg: alg}
+	if tc.signer != nil {
+		e.issuer, e.signer, e.parent = sh.parentT.Subject, tc.signer, parent
+	}
+	viol := append(mutated, compareCert(c, e, &tags)...)
+	sort.Strings(tags)
+	return zv.Out{Go: out, Viol: strings.Join(viol, "; "), Tags: tags}
+}
+
+// expect: what a created certificate has to report. t is the template AS IT WAS AT THE TIME OF THE CALL (a value the
+// library never saw when the caller's template is re-used), subject/issuer the names the certificate must carry.
+type expect struct {
+	t               *x509.Certificate
+	subject, issuer pkix.Name
+	key             *x509rig.Key      // subject key
+	signer          *x509rig.Key      // nil = self-signed (parent == template, signed with key)
+	parent          *x509.Certificate // parsed parent certificate, nil when self-signed or when the parent was hand-built
+	alg             int
+}
+
+// compareCert: the T3 oracle — every listed field of the parsed certificate against the template, and the signature.
+func compareCert(c *x509.Certificate, e *expect, tagsp *[]string) []string {
+	t, tags := e.t, *tagsp
+	defer func() { *tagsp = tags }()
 	var viol []string
 	bad := func(format string, a ...any) { viol = append(viol, fmt.Sprintf(format, a...)) }
 	if c.SerialNumber.Cmp(t.SerialNumber) != 0 {
@@ -334,18 +383,14 @@ func exec(line string) zv.Out {
 	} else if t.SerialNumber.BitLen() > 128 {
 		tags = append(tags, "serial>128bit")
 	}
-	if nameVec(c.Subject) != nameVec(t.Subject) {
-		bad("subject %s != %s", nameVec(c.Subject), nameVec(t.Subject))
+	if nameVec(c.Subject) != nameVec(e.subject) {
+		bad("subject %s != %s", nameVec(c.Subject), nameVec(e.subject))
 	}
-	wantIssuer := t.Subject
-	if tc.signer != nil {
-		wantIssuer = tc.parentT.Subject
-		if !bytes.Equal(c.RawIssuer, parent.RawSubject) {
-			bad("RawIssuer != parent.RawSubject")
-		}
+	if e.parent != nil && !bytes.Equal(c.RawIssuer, e.parent.RawSubject) {
+		bad("RawIssuer != parent.RawSubject")
 	}
-	if nameVec(c.Issuer) != nameVec(wantIssuer) {
-		bad("issuer %s != %s", nameVec(c.Issuer), nameVec(wantIssuer))
+	if nameVec(c.Issuer) != nameVec(e.issuer) {
+		bad("issuer %s != %s", nameVec(c.Issuer), nameVec(e.issuer))
 	}
 	if !c.NotBefore.Equal(t.NotBefore) || !c.NotAfter.Equal(t.NotAfter) {
 		bad("validity %v..%v != %v..%v", c.NotBefore, c.NotAfter, t.NotBefore, t.NotAfter)
@@ -467,23 +512,29 @@ func exec(line string) zv.Out {
 		}
 	}
 	// signature
-	signerKey, parentForCheck := tc.key, c
-	if tc.signer != nil {
-		signerKey, parentForCheck = tc.signer, parent
-		if err := c.CheckSignatureFrom(parent); err != nil {
-			bad("CheckSignatureFrom(parent): %v", err)
+	signerKey, parentForCheck := e.key, c
+	if e.signer != nil {
+		signerKey, parentForCheck = e.signer, e.parent
+		if e.parent != nil {
+			if err := c.CheckSignatureFrom(e.parent); err != nil {
+				bad("CheckSignatureFrom(parent): %v", err)
+			}
 		}
 		// issued certificate: self-signed only if the names coincide AND the signer key is the subject key
-		if want := bytes.Equal(c.RawIssuer, c.RawSubject) && tc.signer.Name == tc.key.Name; c.SelfSigned != want {
-			bad("SelfSigned=%v on an issued certificate (issuer==subject: %v, same key: %v)", c.SelfSigned, bytes.Equal(c.RawIssuer, c.RawSubject), tc.signer.Name == tc.key.Name)
+		if want := bytes.Equal(c.RawIssuer, c.RawSubject) && e.signer.Name == e.key.Name; c.SelfSigned != want {
+			bad("SelfSigned=%v on an issued certificate (issuer==subject: %v, same key: %v)", c.SelfSigned, bytes.Equal(c.RawIssuer, c.RawSubject), e.signer.Name == e.key.Name)
 		}
 	} else {
 		if !c.SelfSigned {
 			bad("self-signed certificate not flagged SelfSigned")
 		}
 	}
-	if err := parentForCheck.CheckSignature(c.SignatureAlgorithm, c.RawTBSCertificate, c.Signature); err != nil {
-		bad("CheckSignature with the signer's certificate: %v", err)
+	if parentForCheck != nil {
+		if err := parentForCheck.CheckSignature(c.SignatureAlgorithm, c.RawTBSCertificate, c.Signature); err != nil {
+			bad("CheckSignature with the signer's certificate: %v", err)
+		}
+	} else if err := x509.CheckSignatureFromKey(signerKey.Pub, c.SignatureAlgorithm, c.RawTBSCertificate, c.Signature); err != nil {
+		bad("CheckSignatureFromKey with the signer's public key: %v", err) // hand-built parent: there is no parent certificate
 	}
 	if d, ok := sigTable[c.SignatureAlgorithm]; ok {
 		if good, known := x509rig.Verify(signerKey.Pub, d.scheme, d.h, c.RawTBSCertificate, c.Signature); known && !good {
@@ -492,11 +543,10 @@ func exec(line string) zv.Out {
 	} else {
 		bad("parsed SignatureAlgorithm %v unknown", c.SignatureAlgorithm)
 	}
-	if alg != 0 && int(c.SignatureAlgorithm) != alg {
-		bad("SignatureAlgorithm %v != requested %v", c.SignatureAlgorithm, x509.SignatureAlgorithm(alg))
+	if e.alg != 0 && int(c.SignatureAlgorithm) != e.alg {
+		bad("SignatureAlgorithm %v != requested %v", c.SignatureAlgorithm, x509.SignatureAlgorithm(e.alg))
 	}
-	sort.Strings(tags)
-	return zv.Out{Go: out, Viol: strings.Join(viol, "; "), Tags: tags}
+	return viol
 }
 
 // ---- Gen ----
@@ -512,7 +562,7 @@ func emit(g *zv.Gen, seed uint64, key, signer string, alg int) {
 	tc := build(seed, key, signer, alg)
 	nc := "-"
 	if hasNC(tc.t) && !overridden(tc.t, []int{2, 5, 29, 30}) {
-		if der, _, _, err := create(tc); err == nil {
+		if der, _, _, _, err := create(tc); err == nil {
 			nc = ncOf(der)
 		}
 	}
@@ -557,6 +607,7 @@ func gen(g *zv.Gen) {
 		}
 		emit(g, r.U64()>>1, k.Name, signer, int(algs[r.Intn(len(algs))]))
 	}
+	genReuse(g)
 }
 
 var _ = big.NewInt
@@ -564,5 +615,6 @@ var _ = net.IPv4len
 
 func init() {
 	zv.Register(&zv.Prop{ID: "C04", Topic: "c04", Gen: gen, Exec: exec,
-		Rule: "templates drawn over the documented field domain (serials incl. 0, negative and 160-bit; names whose attribute values (CN, O, OU, L, ST, STREET, SN, EV jurisdiction, organizationIdentifier; also in directory-name constraints and the issuer) are drawn from printable ASCII, ASCII outside PrintableString, Latin-1, runes >= U+0100 whose low byte is a PrintableString character alone and mixed with printable ASCII, 22 Unicode blocks up to plane 14, UTF-8 length boundaries, real-world names, uniformly random code points; validity in the UTCTime and GeneralizedTime ranges and at their boundaries; KeyUsage 0..511; known/unknown EKUs; basic constraints with MaxPathLen -1/0/unset/n; key ids; DNS/email/IP SANs incl. IPv4 in 16-byte form; AIA; CRLDP; policies; name constraints with DNS/email/IP/directory names; extra extensions incl. ones overriding generated extensions) x subject key {RSA-1024/2048, P-224..P-521, Ed25519} x every signature algorithm CreateCertificate accepts for the signer x self-signed/issued; a case is one distinct template+keys; T3 = field-by-field comparison with the template, CheckSignatureFrom(parent) and standard-library signature verification"})
+		Rule: "templates drawn over the documented field domain (serials incl. 0, negative and 160-bit; names whose attribute values (CN, O, OU, L, ST, STREET, SN, EV jurisdiction, organizationIdentifier; also in directory-name constraints and the issuer) are drawn from printable ASCII, ASCII outside PrintableString, Latin-1, runes >= U+0100 whose low byte is a PrintableString character alone and mixed with printable ASCII, 22 Unicode blocks up to plane 14, UTF-8 length boundaries, real-world names, uniformly random code points; validity in the UTCTime and GeneralizedTime ranges and at their boundaries; KeyUsage 0..511; known/unknown EKUs; basic constraints with MaxPathLen -1/0/unset/n; key ids; DNS/email/IP SANs incl. IPv4 in 16-byte form; AIA; CRLDP; policies; name constraints with DNS/email/IP/directory names; extra extensions incl. ones overriding generated extensions) x subject key {RSA-1024/2048, P-224..P-521, Ed25519} x every signature algorithm CreateCertificate accepts for the signer x self-signed/issued; a case is one distinct template+keys; T3 = field-by-field comparison with the template, CheckSignatureFrom(parent) and standard-library signature verification. " +
+			"Re-use stream (T3 only, reuse.go): sequences of 1-4 CreateCertificate calls that re-use the caller's values — one template value with field groups (subject, serial, validity, SANs, key usage, EKU, basic constraints, key ids, AIA, CRLDP, policies, name constraints, extra extensions, signature algorithm, RawSubject pre-set/cleared, junk in the other Raw* fields) changed in place or the whole struct re-assigned between the calls; parent = the template itself, one hand-built parent, one parsed parent (Subject edited with RawSubject kept / RawSubject cleared with a new or an edited Subject / key id replaced) or the previous template (chain, two values alternating roles) x memory layout of every slice handed in (cap == len / poisoned spare capacity re-filled in place like append(buf[:0], ...) / byte strings as windows of shared buffers); every certificate is compared with a shadow copy of the template as it was at the time of its call (the library never sees the shadow), issuer = the parent's name at that time; template, parent, public and private key are fingerprinted (every field incl. unexported ones, slice lengths, capacities and the contents of the spare capacity) before and after each call: any write into an argument is a violation. The same two oracles on CreateCertificateRequest, Certificate.CreateCRL and CreateRevocationList with a re-used hand-built issuer (aux lines), and on name-constraint IP ranges whose IP/Mask byte strings have spare capacity or share a buffer (ncip lines)"})
 }
